@@ -59,6 +59,7 @@ type JobRec struct {
 	proc         *vrt.Proc
 	aborted      bool
 	finishing    bool
+	sleeping     bool // inside the long computation of a "slow" job
 	md           *core.Metadata
 }
 
@@ -498,6 +499,30 @@ func (r *Run) jobMain(j *JobRec) int {
 		}
 	}
 
+	if fault == "slow" {
+		// a long computation: the stage code works for several (simulated)
+		// minutes while the monitor keeps writing heartbeats
+		r.Faults["slow-job"]++
+		j.sleeping = true
+		for i := 0; i < 6; i++ {
+			vrt.Sleep(100 * time.Second)
+			j.check()
+		}
+		j.sleeping = false
+		fault = ""
+	}
+	if r.Cfg.MarkSuperseded && !j.Stale && r.superseded(j) {
+		// mrp gave this attempt up (e.g. after a machine stall made its heartbeat
+		// look old) and retried the job under a new uniquifier; the attempt lives
+		// on.  What it produces from now on differs from the real outputs, so that
+		// the oracles see whether any of it reaches the pipestance (C11).
+		j.Stale = true
+		cp := *r.FCfg
+		cp.Salt += "|stale"
+		fc = &cp
+		r.Faults["superseded-attempt-finished"]++
+	}
+
 	switch fault {
 	case "stage-error":
 		return r.jobFail(j, md, "errors", "Traceback: simulated stage failure in "+j.Stage)
@@ -815,4 +840,16 @@ func (r *Run) outKind(j *JobRec, p, name, content string) (string, bool) {
 		return p, true
 	}
 	return "", false
+}
+
+// superseded reports whether mrp has replaced this attempt of the job: its
+// directory is gone, or the job's name points at a directory with another uniquifier.
+func (r *Run) superseded(j *JobRec) bool {
+	if _, err := os.Stat(j.MetaPath); err != nil {
+		return true
+	}
+	if t, err := os.Readlink(path.Join(path.Dir(j.MetaPath), j.Leaf)); err == nil && t != path.Base(j.MetaPath) {
+		return true
+	}
+	return false
 }
